@@ -386,7 +386,7 @@ def opaque_pairs(ctx: Ctx) -> None:
     for T, ps in byT.items():
         dtype = torch.float64
         cut = torch.tensor([r["cut"] for r in ps])
-        models = ["bs", "ww", "naked", "mlp", "mlp_prev", "user", "user_causal", "shared_extractor"]
+        models = ["bs", "ww", "naked", "mlp", "mlp_prev", "user", "user_causal", "barrier_prev", "shared_extractor"]
         sa = list(_opaque_setups(ps, "mA", dtype))
         sb = list(_opaque_setups(ps, "mB", dtype))
         for (label, dA), (_, dB) in zip(sa, sb):
@@ -410,6 +410,9 @@ def opaque_pairs(ctx: Ctx) -> None:
                     inputs = [ModuleOutput(ext, ["log_moneyness", "max_moneyness", "max_log_moneyness", "prev_hedge"]), "time_to_maturity"]
                     other = Hedger(torch.nn.Sequential(torch.nn.Linear(2, 1), torch.nn.Tanh()).to(dtype), inputs)
                     model = torch.nn.Sequential(torch.nn.Linear(2, 8), torch.nn.Tanh(), torch.nn.Linear(8, 1)).to(dtype)
+                elif mname == "barrier_prev":      # barrier features evaluated step by step (the state-dependent branch)
+                    from pfhedge.features import Barrier
+                    model = UserNet(); inputs = [Barrier(0.55), Barrier(0.45, up=False), "moneyness", "prev_hedge"]
                 elif mname == "user_causal":
                     # a user module that looks BACK along the time dimension (a running sum, as a recurrent layer would): causal, so
                     # the hedge stays non-anticipating, and the position at the final index is still the one held over the last step
@@ -422,6 +425,7 @@ def opaque_pairs(ctx: Ctx) -> None:
                         if mname == "shared_extractor":
                             other.compute_hedge(dA)
                         a = hedger.compute_hedge(dA)
+                        a_again = hedger.compute_hedge(dA)       # the same hedger on the same derivative once more: the same hedge
                         if mname == "shared_extractor":
                             other.compute_hedge(dB)
                         b = hedger.compute_hedge(dB)
@@ -431,6 +435,9 @@ def opaque_pairs(ctx: Ctx) -> None:
                         continue
                     ctx.violation(f"opaque:{mname}:{label}:raises", f"{mname} hedger raised {type(e).__name__}", {"error": repr(e)[:300]})
                     continue
+                if not torch.equal(a.nan_to_num(), a_again.nan_to_num()):
+                    ctx.violation(f"opaque:{mname}:repeat", f"{mname} hedger on {label}: a second evaluation on the same, unchanged derivative gives another hedge "
+                                  "(something computed for later steps survived the first evaluation)", {"max_abs_diff": float((a - a_again).abs().nan_to_num().max())})
                 Tn = a.size(-1)
                 mask = (torch.arange(Tn)[None, :] <= cut[:, None])[:, None, :].expand_as(a)
                 mask = mask | (cut == Tn - 2)[:, None, None].expand_as(a)
